@@ -179,6 +179,8 @@ std::vector<std::pair<std::string, std::string>> vg_reports(const std::string &t
                 }
             }
         }
+        // no library frame: the undefined bytes were read by the harness out of the Result the callback was given
+        if (site == "?" && std::string(kind) == "uninitialised-read") site = "result-handed-to-callback";
         v.push_back(std::make_pair(std::string("memcheck/") + kind + "@" + site, block.substr(0, 2500)));
     }
     return v;
@@ -191,6 +193,7 @@ struct ParseStats { unsigned n_dg = 0, n_isolated = 0; bool strict_with_records 
 void run_datagram(Ctx &c, vh::Rng &r, const c15gen::Dg &dg, const std::string &domain, bool memcheck, ParseStats &ps) {
     int srv = int(r.below(c.nsrv));
     size_t pa = r.below(5), pb = (pa + 1 + r.below(4)) % 5;
+    if (memcheck) pa = r.below(3);   // small garbage counts: under valgrind a 65535-round loop of the unfixed reader costs seconds
     std::string outcome[2];
     bool risky = false;
     for (int run = 0; run < 2; ++run) {
@@ -297,7 +300,11 @@ void parse_case(uint64_t idx, vh::Rng &r, bool memcheck) {
     if (memcheck) {   // keep every class, thin out the bulk (valgrind is ~30x slower)
         std::vector<c15gen::Dg> keep;
         unsigned cuts = 0;
-        for (auto &d : dgs) { if (d.tag == "cut" && ++cuts > 16 && !r.chance(1, 5)) continue; keep.push_back(d); }
+        for (auto &d : dgs) {
+            if (d.tag == "cut" && ++cuts > 16 && !r.chance(1, 5)) continue;
+            if (d.tag == "an-ffff" || d.tag == "qd-ffff" || d.tag == "one-a-count-ffff") continue;   // 65535 rounds: asan leg only
+            keep.push_back(d);
+        }
         dgs.swap(keep);
     }
     ParseStats ps;
